@@ -13,6 +13,7 @@
  *  C12.precache.stream         buffer[k] is stream byte k for k < used'
  *                              (unread old bytes ++ delivered bytes, in order);
  *                              used' = old unread + sum of delivered counts
+ *  C12.precache.no_clobber     no read/memmove overwrites a live stream byte
  *  C12.precache.fail           ret != 0 <=> a read failed with errno != EINTR
  *  C12.precache.noop_at_eof    eof on entry: no system call, state unchanged
  */
@@ -64,9 +65,8 @@ void harness(void)
 	g_moves = 0;
 	g_fuel = verif_nd_u64("fuel");
 	g_w = verif_nd_u64("w");
-	g_wval = verif_nd_u8("wval");
-	if (g_w < g_keep)
-		f.buffer[g_off0 + g_w] = g_wval; /* the unread bytes ARE the stream */
+	/* the unread bytes ARE the first g_keep bytes of the stream */
+	g_wat = g_w < g_keep ? g_off0 + (size_t)g_w : C12_NOWHERE;
 	VERIF_COVER(g_off0 > 0 && g_keep > 4);
 
 	ret = precache((sqfs_istream_t *)&f);
@@ -86,8 +86,8 @@ void harness(void)
 				     "C12.precache.full_or_eof");
 		if (g_off0 > 0 && g_off0 < g_used0)
 			VERIF_ASSERT(g_moves == 1, "C12.precache.compact");
-		if (g_w < f.buffer_used)
-			VERIF_ASSERT(f.buffer[g_w] == g_wval, "C12.precache.stream");
+		VERIF_ASSERT(g_wat == (g_w < f.buffer_used ? (size_t)g_w : C12_NOWHERE),
+			     "C12.precache.stream");
 	}
 	VERIF_ASSERT(f.fd == g_fd, "C12.precache.frame");
 
